@@ -24,7 +24,8 @@ FAULTS = Profile(write_exc=EXC_KINDS, read_exc=EXC_KINDS,
                  latency=(0, 1, 26), content=("err", "nameerr", "wrong"), silent=True,
                  read_window=2)
 
-CONNECT_ENVS = ("ok", "nonebb", "openfail", "silent", "oldfw", "versionless", "missingname")
+CONNECT_ENVS = ("ok", "nonebb", "openfail", "silent", "oldfw", "versionless", "missingname",
+                "prerelease")
 
 
 def _factory(env, chooser, ports):
@@ -37,6 +38,8 @@ def _factory(env, chooser, ports):
             board = EBB3Board(version=None)
         elif env == "oldfw":
             board = EBB3Board(version="2.8.1")
+        elif env == "prerelease":           # a release candidate of the minimum: older than it
+            board = EBB3Board(version="3.0.2rc1")
         elif env == "versionless":
             board = EBB3Board(banner="EBBv13_and_above EB Firmw")
         else:
@@ -309,7 +312,9 @@ def run(ctx):
              ([("disconnect",), ("connect", "versionless")], []),
              ([("disconnect",), ("connect", "missingname")], []),
              ([("never",), ("connect", "oldfw")], []),
-             ([("never",), ("connect", "missingname")], [])]
+             ([("never",), ("connect", "missingname")], []),
+             ([("disconnect",), ("connect", "prerelease")], []),
+             ([("never",), ("connect", "prerelease")], [])]
     work = [(steps, vector, ops) for (steps, vector, _err) in
             sorted(blocked.values(), key=lambda v: repr(v[:2]))]
     work += [(steps, vector, ops) for steps, vector in seeds]
